@@ -9,9 +9,13 @@ Theorems about `Ecal.Debug` (model of `interpreter/debug.go`).
   `continue_completes`, `released_thread_progresses`, `stop_releases_all`;
   old code: `lost_resume_reachable` (negative witness);
 * decision functions: `suspends_at_active_breakpoint`, `step_semantics_stepin`,
-  `step_semantics_stepover`, `step_semantics_stepout`, and — for a thread in ANY debugging
-  situation — `suspends_whenever_arriving_partial` with `line_tracks_last_visit`
-  (needs fix "stepping honours break points" in `VisitState`);
+  `step_semantics_stepover`, `step_semantics_stepout`, and over TRACES: `suspends_whenever_arriving`
+  (a thread in any debugging situation that arrives at a line with an active break point from a
+  different position — `lastAt`, tied to the state by `pos_tracks_lastAt` — is suspended),
+  `suspends_arriving_from_other_line` (the literal reading);
+* the recorded call stack: `callstack_assertion_never_fails` (the sanity assertion of
+  `VisitStepOutState` holds on every event stream `executeFunction` can show a debugger attached at
+  any moment of one execution), `depth_is_stack_length` (the model's depth is that stack's length);
 * "observer only": in the model the debugger cannot touch the evaluator's state BY TYPE — a remark
   (`example`), not an obligation. For the Go CODE "same result, log and variables" is NOT a theorem:
   it is the regenerated facts (`observer_accesses_allowed`, …: what the code's visit functions touch)
@@ -430,7 +434,7 @@ theorem step_semantics_stepin (r : Run) (is : IState) (hal : Alive r)
 (`enter`, a balanced body at any nesting without active break points, its `exit`) is passed
 without suspension — and the next node visited afterwards (on whatever line) suspends the
 thread at depth `n`. (Break points inside the call DO stop the thread:
-`suspends_whenever_arriving_partial`.) -/
+`suspends_whenever_arriving`.) -/
 theorem step_semantics_stepover (r : Run) (is : IState) (hal : Alive r)
     (his : r.d.is = some is) (hcmd : is.cmd = .stepOver)
     (l l' : Loc) (e : Bool) (body : List Ev) (hb : Balanced body)
@@ -589,18 +593,143 @@ theorem line_tracks_last_visit (r : Run) (l : Loc) (hal : Alive r) (is' : IState
       · exact park_line _ _ _ _ (by simp) h'
       · simp_all
 
-/-- **Suspension whenever the thread arrives at an active break point** — PARTIAL.
-FULL statement wanted (not proved): for every trace `t` from a state without interrogation, if the
-position of the last node the thread executed before `visit l` differs from `l`, `l` has an active break
-point and the thread was not told to end, then `runTrace r (t ++ [visit l])` suspends at `l`.
-PROVED here: the single-step statement with the hypothesis on the MODEL FIELD `is.pos` (`is.pos ≠ l`), for
-a thread in any debugging situation (not interrogated, resumed, stepping in / over / out at any depth)
-except one that `StopThreads` has told to end. What ties `is.pos` to the trace: `line_tracks_last_visit`
-(after every `visit` an existing state carries that node's position); `enter` / `exit` / `finished` move
-`is.pos` only together with a reported suspension at that position (error stop at a returning call,
-stop before a call) — by inspection of `stepInState` / `stepOutState` after fix
-"error-pass-keeps-position", not by a theorem. MISSING: the induction over traces with a `lastAt` function. -/
-theorem suspends_whenever_arriving_partial (r : Run) (l : Loc) (hal : Alive r)
+
+/-! ### "arrives from a different line": the trace-level statement -/
+
+/-- where the thread IS after the events of a trace: the position of the node it visited last, or — if
+later — the position of the call at which it was last reported suspended (the stop before a call is
+entered, the error stop at a returning call). `last` is where it was before the trace. -/
+def lastAt (r : Run) (last : Option Loc) : List Ev → Option Loc
+  | [] => last
+  | e :: t =>
+    let r' := stepEv r e
+    let last' := match e with
+      | .visit l => some l
+      | .enter l => if r.susp.length < r'.susp.length then some l else last
+      | .exit l _ => if r.susp.length < r'.susp.length then some l else last
+      | .finished => last
+    lastAt r' last' t
+
+theorem runTrace_cons (r : Run) (e : Ev) (t : List Ev) : runTrace r (e :: t) = runTrace (stepEv r e) t := rfl
+
+theorem stepEv_dead (r : Run) (e : Ev) (h : ¬ Alive r) : stepEv r e = r := by
+  obtain ⟨d, script, susp, killed, crashed⟩ := r
+  cases killed <;> cases crashed <;> simp_all [Alive, stepEv]
+
+theorem runTrace_dead (t : List Ev) : ∀ (r : Run), ¬ Alive r → runTrace r t = r := by
+  induction t with
+  | nil => intro r _; rfl
+  | cons e t ih =>
+    intro r h
+    rw [runTrace_cons, stepEv_dead r e h]
+    exact ih r h
+
+theorem enterCmd_pos (is : IState) (n : Nat) : (enterCmd is n).pos = is.pos := by
+  unfold enterCmd; split <;> rfl
+
+theorem exitCmd_pos (is : IState) (n : Nat) : (exitCmd is n).pos = is.pos := by
+  unfold exitCmd; split <;> rfl
+
+/-- one event: an existing interrogation state carries the position `lastAt` computes -/
+theorem pos_step (r : Run) (e : Ev) (last : Option Loc) (hal : Alive r)
+    (h : ∀ is, r.d.is = some is → some is.pos = last) (hal' : Alive (stepEv r e)) :
+    ∀ is', (stepEv r e).d.is = some is' → some is'.pos = lastAt r last [e] := by
+  intro is' h'
+  cases e with
+  | visit l =>
+    simp only [lastAt]
+    exact congrArg some (line_tracks_last_visit r l hal is' h' hal')
+  | finished =>
+    obtain ⟨⟨is, depth, bps, bos, boe⟩, script, susp, killed, crashed⟩ := r
+    obtain ⟨hk, hc⟩ := hal
+    simp only at hk hc
+    subst hk hc
+    simp [stepEv, threadFinished] at h'
+  | enter l =>
+    obtain ⟨⟨is, depth, bps, bos, boe⟩, script, susp, killed, crashed⟩ := r
+    obtain ⟨hk, hc⟩ := hal
+    simp only at hk hc
+    subst hk hc
+    cases is with
+    | none => simp [stepEv, stepInState] at h'
+    | some is =>
+      have hpos := h is rfl
+      by_cases hstop : is.cmd = Cmd.stop
+      · -- stop before the call: the thread is reported suspended at the call's position
+        have hv : ∃ P, visitState ⟨⟨some is, depth, bps, bos, boe⟩, script, susp, false, false⟩ l = P ∧
+            P.susp = susp ++ [l] ∧ (∀ isp, P.d.is = some isp → isp.pos = l) := by
+          refine ⟨_, rfl, ?_, ?_⟩
+          · simp [visitState, hstop]
+          · intro isp hisp
+            simp only [visitState, hstop, or_true, if_true] at hisp
+            exact park_line _ l isp l (by simp) hisp
+        obtain ⟨P, hP, hPs, hPl⟩ := hv
+        simp only [stepEv, Bool.or_self, Bool.false_eq_true, if_false, stepInState, hstop, if_true, hP] at h'
+        simp only [lastAt, stepEv, Bool.or_self, Bool.false_eq_true, if_false, stepInState, hstop, if_true, hP, hPs,
+          List.length_append, List.length_cons, List.length_nil, Nat.lt_add_one]
+        cases hp : P.d.is with
+        | none => simp [hp] at h'
+        | some isp =>
+          simp [hp] at h'
+          subst h'
+          rw [enterCmd_pos, hPl isp hp]
+      · simp only [stepEv, Bool.or_self, Bool.false_eq_true, if_false, stepInState, hstop] at h' ⊢
+        simp only [lastAt, stepEv, Bool.or_self, Bool.false_eq_true, if_false, stepInState, hstop]
+        simp at h'
+        subst h'
+        simp [enterCmd]
+        split <;> simp_all
+  | exit l err =>
+    obtain ⟨⟨is, depth, bps, bos, boe⟩, script, susp, killed, crashed⟩ := r
+    obtain ⟨hk, hc⟩ := hal
+    simp only at hk hc
+    subst hk hc
+    by_cases hd : depth = 0
+    · subst hd
+      simp only [stepEv, Bool.or_self, Bool.false_eq_true, if_false, stepOutState, if_true] at h'
+      simp only [lastAt, stepEv, Bool.or_self, Bool.false_eq_true, if_false, stepOutState, if_true, Nat.lt_irrefl]
+      exact h is' h'
+    · by_cases hbe : (boe && err) = true
+      · cases is with
+        | none =>
+          simp only [stepEv, Bool.or_self, Bool.false_eq_true, if_false, stepOutState, hd, hbe, if_true, freshState] at h'
+          simp only [lastAt, stepEv, Bool.or_self, Bool.false_eq_true, if_false, stepOutState, hd, hbe, if_true,
+            freshState, park_susp, List.length_append, List.length_cons, List.length_nil, Nat.lt_add_one]
+          exact congrArg some (park_line _ l is' l (by simp) h')
+        | some is =>
+          have hpos := h is rfl
+          cases hie : is.err with
+          | true =>
+            simp only [stepEv, Bool.or_self, Bool.false_eq_true, if_false, stepOutState, hd, hbe, if_true, hie] at h'
+            simp only [lastAt, stepEv, Bool.or_self, Bool.false_eq_true, if_false, stepOutState, hd, hbe, if_true, hie,
+              Nat.lt_irrefl]
+            simp at h'
+            subst h'
+            exact hpos
+          | false =>
+            simp only [stepEv, Bool.or_self, Bool.false_eq_true, if_false, stepOutState, hd, hbe, if_true, hie] at h'
+            simp only [lastAt, stepEv, Bool.or_self, Bool.false_eq_true, if_false, stepOutState, hd, hbe, if_true, hie,
+              park_susp, List.length_append, List.length_cons, List.length_nil, Nat.lt_add_one]
+            exact congrArg some (park_line _ l is' l (by simp) h')
+      · have hbe' : (boe && err) = false := by simpa using hbe
+        cases is with
+        | none =>
+          simp [stepEv, stepOutState, hd, hbe'] at h'
+        | some is =>
+          have hpos := h is rfl
+          simp only [stepEv, Bool.or_self, Bool.false_eq_true, if_false, stepOutState, hd, hbe'] at h'
+          simp only [lastAt, stepEv, Bool.or_self, Bool.false_eq_true, if_false, stepOutState, hd, hbe', Nat.lt_irrefl]
+          simp at h'
+          subst h'
+          simp [exitCmd]
+          split <;> simp_all
+
+/-- Single step behind `suspends_whenever_arriving`: a thread in ANY debugging situation (not interrogated,
+resumed, stepping in / over / out at any depth) except one that `StopThreads` has told to end, whose
+interrogation state — if there is one — carries a position different from `l`, reports suspension when it
+visits a node at `l` on a line with an active break point. (`pos_tracks_lastAt` says what that position
+is in terms of the trace.) -/
+theorem suspends_on_position_change (r : Run) (l : Loc) (hal : Alive r)
     (hbp : bpActive r.d.bps l = true)
     (hfrom : ∀ is, r.d.is = some is → is.pos ≠ l ∧ is.cmd ≠ .kill) :
     (stepEv r (.visit l)).susp = r.susp ++ [l] := by
@@ -619,6 +748,283 @@ example : ∃ (r : Run) (l : Loc), Alive r ∧ bpActive r.d.bps l = true ∧
     (∀ is, r.d.is = some is → is.pos ≠ l ∧ is.cmd ≠ .kill) :=
   ⟨Run.init { Dbg.init false true with bps := [(⟨0, 3⟩, true)], is := some ⟨.stepOut, ⟨1, 3⟩, 0, false, true⟩, depth := 2 } [],
     ⟨0, 3⟩, ⟨rfl, rfl⟩, by decide, ⟨_, rfl, rfl⟩, by decide⟩
+
+/-- **`is.pos` is where the thread is.** Along EVERY trace (visits, calls entered and left with or without
+error, finished executions; any break points, any script), as long as the thread is alive: an existing
+interrogation state carries exactly the position `lastAt` computes from the trace — the node visited
+last, or the call at which the thread was last reported suspended if that is later. In particular an
+error that only passes outer calls, a normal return, a call entered while stepping do NOT move it. -/
+theorem pos_tracks_lastAt (t : List Ev) :
+    ∀ (r : Run) (last : Option Loc), (∀ is, r.d.is = some is → some is.pos = last) →
+      Alive (runTrace r t) → ∀ is', (runTrace r t).d.is = some is' → some is'.pos = lastAt r last t := by
+  induction t with
+  | nil =>
+    intro r last h _ is' h'
+    exact h is' h'
+  | cons e t ih =>
+    intro r last h hal is' h'
+    rw [runTrace_cons] at hal h'
+    have hr : Alive r := by
+      by_cases hr : Alive r
+      · exact hr
+      · rw [stepEv_dead r e hr, runTrace_dead t r hr] at hal
+        exact absurd hal hr
+    have hr' : Alive (stepEv r e) := by
+      by_cases hr' : Alive (stepEv r e)
+      · exact hr'
+      · rw [runTrace_dead t _ hr'] at hal
+        exact absurd hal hr'
+    have hstep := pos_step r e last hr h hr'
+    have := ih (stepEv r e) (lastAt r last [e]) hstep hal is' h'
+    simpa [lastAt] using this
+
+/-- **Suspension whenever a thread arrives, from a different position, at a line with an active break
+point — over traces.** Let a thread run ANY trace `t` (from a state whose interrogation state, if any,
+sits at `last0`), stay alive, and not have been told to end by `StopThreads`. If the place where the
+thread is after `t` (`lastAt`: the node it visited last, or the call at which it was last reported
+suspended) is not `l` (another line OR another source), and `l` lies on a line with an active break
+point, then visiting a node at `l` reports suspension at `l`. Whatever the thread was doing: not
+interrogated, resumed, stepping in / over / out at any depth, after errors passed any number of calls. -/
+theorem suspends_whenever_arriving (r0 : Run) (last0 : Option Loc) (t : List Ev) (l : Loc)
+    (h0 : ∀ is, r0.d.is = some is → some is.pos = last0)
+    (hal : Alive (runTrace r0 t))
+    (hbp : bpActive (runTrace r0 t).d.bps l = true)
+    (hfrom : lastAt r0 last0 t ≠ some l)
+    (hkill : ∀ is, (runTrace r0 t).d.is = some is → is.cmd ≠ .kill) :
+    (runTrace r0 (t ++ [.visit l])).susp = (runTrace r0 t).susp ++ [l] := by
+  have happ : runTrace r0 (t ++ [.visit l]) = stepEv (runTrace r0 t) (.visit l) := by
+    simp [runTrace, List.foldl_append]
+  rw [happ]
+  apply suspends_on_position_change _ l hal hbp
+  intro is his
+  refine ⟨?_, hkill is his⟩
+  intro heq
+  have := pos_tracks_lastAt t r0 last0 h0 hal is his
+  rw [heq] at this
+  exact hfrom this.symm
+
+theorem lastAt_append_visit (t : List Ev) (l' : Loc) :
+    ∀ (r : Run) (last : Option Loc), lastAt r last (t ++ [.visit l']) = some l' := by
+  induction t with
+  | nil => intro r last; simp [lastAt]
+  | cons e t ih => intro r last; simp only [List.cons_append, lastAt]; exact ih _ _
+
+/-- **The literal reading.** A thread without interrogation state at the start runs any trace whose last
+event is the visit of a node at `l'`; if `l ≠ l'` (different line or different source) and `l` has an active
+break point, the next visit, at `l`, suspends the thread (unless it died or was told to end). -/
+theorem suspends_arriving_from_other_line (r0 : Run) (t : List Ev) (l' l : Loc)
+    (h0 : r0.d.is = none) (hne : l' ≠ l)
+    (hal : Alive (runTrace r0 (t ++ [.visit l'])))
+    (hbp : bpActive (runTrace r0 (t ++ [.visit l'])).d.bps l = true)
+    (hkill : ∀ is, (runTrace r0 (t ++ [.visit l'])).d.is = some is → is.cmd ≠ .kill) :
+    (runTrace r0 (t ++ [.visit l'] ++ [.visit l])).susp = (runTrace r0 (t ++ [.visit l'])).susp ++ [l] := by
+  refine suspends_whenever_arriving r0 none (t ++ [Ev.visit l']) l (by simp [h0]) hal hbp ?_ hkill
+  rw [lastAt_append_visit]
+  intro h
+  exact hne (Option.some.inj h)
+
+/-- the one-line try/except of the second review: break point on line 7, an error raised on line 2 passes two
+calls -/
+def tryExceptDbg : Dbg := { Dbg.init false true with bps := [(⟨0, 7⟩, true)] }
+
+def tryExceptTrace : List Ev :=
+  [.visit ⟨0, 7⟩, .enter ⟨0, 7⟩, .visit ⟨0, 5⟩, .enter ⟨0, 5⟩, .visit ⟨0, 2⟩, .enter ⟨0, 2⟩,
+   .exit ⟨0, 2⟩ true, .exit ⟨0, 5⟩ true, .exit ⟨0, 7⟩ true]
+
+/-- non-vacuity of `suspends_whenever_arriving`: after the error passed, the thread is at line 2, comes back
+to line 7 and is suspended again — suspensions `[7, 2, 7]` -/
+example :
+    lastAt (Run.init tryExceptDbg []) none tryExceptTrace = some ⟨0, 2⟩ ∧
+    ((runTrace (Run.init tryExceptDbg []) tryExceptTrace).killed = false ∧
+      (runTrace (Run.init tryExceptDbg []) tryExceptTrace).crashed = false) ∧
+    (runTrace (Run.init tryExceptDbg []) (tryExceptTrace ++ [.visit ⟨0, 7⟩])).susp = [⟨0, 7⟩, ⟨0, 2⟩, ⟨0, 7⟩] := by
+  refine ⟨by decide, ⟨by decide, by decide⟩, by decide⟩
+
+/-! ### the recorded call stack always matches (the sanity assertion of `VisitStepOutState`)
+
+The model the driver runs keeps the call DEPTH only. Go keeps the stack of call nodes and asserts, when a
+call returns, that the node on top is the returning call (`errorutil.AssertTrue`, a panic of the program
+thread otherwise). Here: the stack as a ghost (`goStack`), the assertion (`assertsOk`), the shape of the
+event streams `executeFunction` can produce for a debugger attached at any moment of one execution
+(`Seen`), the theorem that the assertion holds at every return of such a stream, and the link to the
+model: its depth is the length of that stack. NOT covered (declared assumption): one debugger object
+detached inside one call and re-attached inside another (its stack is stale). -/
+
+/-- `callStacks[tid]` after an event: push at `VisitStepInState`, pop at `VisitStepOutState` (nothing to pop
+if the debugger was attached while the call was running), dropped by `RecordThreadFinished` -/
+def goStackStep (st : List Loc) : Ev → List Loc
+  | .enter l => l :: st
+  | .exit _ _ => st.tail
+  | .finished => []
+  | .visit _ => st
+
+def goStack (st : List Loc) (t : List Ev) : List Loc := t.foldl goStackStep st
+
+/-- the sanity assertion at one event: at a return, a non-empty stack has the returning call on top -/
+def assertOk (st : List Loc) : Ev → Bool
+  | .exit l _ => st.head? == none || st.head? == some l
+  | _ => true
+
+/-- the assertion holds at every event of the trace -/
+def assertsOk (st : List Loc) : List Ev → Bool
+  | [] => true
+  | e :: t => assertOk st e && assertsOk (goStackStep st e) t
+
+/-- complete pieces of an execution: node visits and calls that are entered AND left, properly nested, the
+return announced with the node of the call (`executeFunction`: `VisitStepInState(node)` … `VisitStepOutState(node)`) -/
+inductive Matched : List Ev → Prop where
+  | nil : Matched []
+  | visit (l : Loc) {t : List Ev} : Matched t → Matched (.visit l :: t)
+  | call (l : Loc) (e : Bool) {b t : List Ev} : Matched b → Matched t → Matched (.enter l :: (b ++ .exit l e :: t))
+
+/-- the end of what the debugger sees: complete pieces, then calls that are still running -/
+inductive Open : List Ev → Prop where
+  | done {b : List Ev} : Matched b → Open b
+  | call (l : Loc) {b t : List Ev} : Matched b → Open t → Open (b ++ .enter l :: t)
+
+/-- what a debugger attached at ANY moment sees of one execution: returns of calls that were already
+running when it was attached (each after complete pieces), then `Open` -/
+inductive Seen : List Ev → Prop where
+  | tail {t : List Ev} : Open t → Seen t
+  | ret (l : Loc) (e : Bool) {b t : List Ev} : Matched b → Seen t → Seen (b ++ .exit l e :: t)
+
+theorem goStack_append (st : List Loc) (a b : List Ev) : goStack st (a ++ b) = goStack (goStack st a) b := by
+  simp [goStack, List.foldl_append]
+
+theorem assertsOk_append (a b : List Ev) : ∀ st : List Loc,
+    assertsOk st (a ++ b) = (assertsOk st a && assertsOk (goStack st a) b) := by
+  induction a with
+  | nil => intro st; simp [assertsOk, goStack]
+  | cons e a ih =>
+    intro st
+    simp only [List.cons_append, assertsOk, ih, goStack, List.foldl_cons, Bool.and_assoc]
+
+/-- a complete piece leaves the stack as it found it and never trips the assertion -/
+theorem matched_ok {b : List Ev} (h : Matched b) : ∀ st : List Loc, goStack st b = st ∧ assertsOk st b = true := by
+  induction h with
+  | nil => intro st; simp [goStack, assertsOk]
+  | visit l _ ih =>
+    intro st
+    obtain ⟨h1, h2⟩ := ih st
+    exact ⟨by simpa [goStack, goStackStep] using h1, by simpa [assertsOk, assertOk, goStackStep] using h2⟩
+  | call l e _ _ ih1 ih2 =>
+    rename_i b t _ _
+    intro st
+    obtain ⟨hb1, hb2⟩ := ih1 (l :: st)
+    obtain ⟨ht1, ht2⟩ := ih2 st
+    have hst : goStack (l :: st) (b ++ .exit l e :: t) = st := by
+      rw [goStack_append, hb1]
+      simpa [goStack, goStackStep] using ht1
+    have has : assertsOk (l :: st) (b ++ .exit l e :: t) = true := by
+      rw [assertsOk_append, hb2, hb1]
+      simpa [assertsOk, assertOk, goStackStep] using ht2
+    exact ⟨by simpa [goStack, goStackStep] using hst, by simpa [assertsOk, assertOk, goStackStep] using has⟩
+
+theorem open_ok {t : List Ev} (h : Open t) : ∀ st : List Loc, assertsOk st t = true := by
+  induction h with
+  | done hb => intro st; exact (matched_ok hb st).2
+  | call l hb _ ih =>
+    intro st
+    rw [assertsOk_append, (matched_ok hb st).2, (matched_ok hb st).1]
+    simpa [assertsOk, assertOk, goStackStep] using ih (l :: st)
+
+/-- **The call stack always matches.** For every event stream a debugger can see of one execution —
+attached before it, or at any moment while any number of calls are running (`Seen`), with an empty recorded
+stack at that moment — the sanity assertion of `VisitStepOutState` holds at every return: the recorded
+stack is empty (the call was entered before the debugger was attached: fix 748f41f) or its top is the
+returning call. So the visit functions cannot panic on such a stream. -/
+theorem callstack_assertion_never_fails {t : List Ev} (h : Seen t) : assertsOk [] t = true := by
+  induction h with
+  | tail ho => exact open_ok ho []
+  | ret l e hb _ ih =>
+    rw [assertsOk_append, (matched_ok hb []).2, (matched_ok hb []).1]
+    simpa [assertsOk, assertOk, goStackStep] using ih
+
+theorem applyAct_depth (d : Dbg) (a : Act) : (applyAct d a).depth = d.depth := by
+  have hops : ∀ (ops : List BpOp) (d : Dbg), (ops.foldl applyOp d).depth = d.depth := by
+    intro ops
+    induction ops with
+    | nil => intro d; rfl
+    | cons o os ih =>
+      intro d
+      simp only [List.foldl_cons]
+      rw [ih]
+      cases o <;> simp [applyOp] <;> split <;> rfl
+  unfold applyAct
+  have h0 := hops a.ops d
+  generalize (a.ops.foldl applyOp d) = d1 at h0 ⊢
+  cases a.cmd with
+  | none =>
+    simp only [applyKill]
+    split
+    · exact h0
+    · split <;> simp [h0]
+  | some c =>
+    simp only [applyCont]
+    split
+    · exact h0
+    · split <;> simp [h0]
+
+theorem park_depth (r : Run) (l : Loc) : (park r l).d.depth = r.d.depth := by
+  unfold park
+  split <;> simp [applyAct_depth]
+
+theorem visitState_depth (r : Run) (l : Loc) : (visitState r l).d.depth = r.d.depth := by
+  unfold visitState visitFresh
+  repeat' split
+  all_goals simp [park_depth]
+
+/-- one event: the model's call depth stays the length of the recorded stack -/
+theorem depth_step (r : Run) (e : Ev) (st : List Loc) (hal : Alive r) (h : r.d.depth = st.length) :
+    (stepEv r e).d.depth = (goStackStep st e).length := by
+  obtain ⟨⟨is, depth, bps, bos, boe⟩, script, susp, killed, crashed⟩ := r
+  obtain ⟨hk, hc⟩ := hal
+  simp only at hk hc h
+  subst hk hc h
+  cases e with
+  | visit l => simp [stepEv, goStackStep, visitState_depth]
+  | finished => simp [stepEv, goStackStep, threadFinished]
+  | enter l =>
+    simp only [stepEv, Bool.or_self, Bool.false_eq_true, if_false, stepInState, goStackStep, List.length_cons]
+  | exit l err =>
+    simp only [stepEv, Bool.or_self, Bool.false_eq_true, if_false, stepOutState, goStackStep, List.length_tail]
+    repeat' split
+    all_goals simp_all [park_depth]
+
+/-- **The model's depth is the length of the recorded call stack.** Along every trace on which the thread
+stays alive, the call depth of the model the driver runs (`Dbg.depth`, what step-over / step-out compare)
+equals the length of the stack Go records (`goStack`) — so the ghost stack of
+`callstack_assertion_never_fails` is a refinement of the model's state, not a second model. -/
+theorem depth_is_stack_length (t : List Ev) :
+    ∀ (r : Run) (st : List Loc), r.d.depth = st.length → Alive (runTrace r t) →
+      (runTrace r t).d.depth = (goStack st t).length := by
+  induction t with
+  | nil => intro r st h _; exact h
+  | cons e t ih =>
+    intro r st h hal
+    rw [runTrace_cons] at hal ⊢
+    have hr : Alive r := by
+      by_cases hr : Alive r
+      · exact hr
+      · rw [stepEv_dead r e hr, runTrace_dead t r hr] at hal
+        exact absurd hal hr
+    have := ih (stepEv r e) (goStackStep st e) (depth_step r e st hr h) hal
+    simpa [goStack] using this
+
+example : (runTrace (Run.init tryExceptDbg []) tryExceptTrace).d.depth = (goStack [] tryExceptTrace).length := by
+  decide
+
+/-- non-vacuity: attached inside `g` called from `f`; `g` returns, `f` calls `h` and returns; then a call
+that is still running -/
+example : Seen [.visit ⟨0, 3⟩, .exit ⟨0, 9⟩ false, .enter ⟨0, 5⟩, .visit ⟨0, 1⟩, .exit ⟨0, 5⟩ false,
+    .exit ⟨0, 12⟩ true, .visit ⟨0, 13⟩, .enter ⟨0, 14⟩, .visit ⟨0, 2⟩] :=
+  .ret (b := [.visit ⟨0, 3⟩]) ⟨0, 9⟩ false (.visit _ .nil)
+    (.ret (b := [.enter ⟨0, 5⟩, .visit ⟨0, 1⟩, .exit ⟨0, 5⟩ false]) ⟨0, 12⟩ true
+      (.call (b := [.visit ⟨0, 1⟩]) (t := []) ⟨0, 5⟩ false (.visit _ .nil) .nil)
+      (.tail (.call (b := [.visit ⟨0, 13⟩]) ⟨0, 14⟩ (.visit _ .nil) (.done (.visit _ .nil)))))
+
+/-- a stream that is NOT of that shape trips the assertion (the return of another call than the one on top) -/
+example : assertsOk [] [.enter ⟨0, 5⟩, .exit ⟨0, 6⟩ false] = false := by decide
 
 /-! ### the debugger only observes -/
 
